@@ -873,6 +873,27 @@ class CSSStyleSheet(cssutils.stylesheets.StyleSheet):
 
         # all other where order is not important
         else:
+            # namespaces used by selectors of the rule must be declared here
+            if rule.type == rule.STYLE_RULE:
+                useduris = rule.selectorList._getUsedUris()
+            elif rule.type == rule.MEDIA_RULE:
+                useduris = set()
+                for r in rule.cssRules:
+                    if r.type == r.STYLE_RULE:
+                        useduris.update(r.selectorList._getUsedUris())
+            else:
+                useduris = ()
+            for uri in useduris:
+                if uri not in ('', cssutils._ANYNS) and uri not in list(
+                    self.namespaces.values()
+                ):
+                    self._log.error(
+                        'CSSStyleSheet: Namespace "%s" used by the rule is not '
+                        'declared in this style sheet.' % uri,
+                        error=xml.dom.NamespaceErr,
+                    )
+                    return
+
             if inOrder:
                 # simply add to end as no specific order
                 self._cssRules.append(rule)
